@@ -496,8 +496,9 @@ class PartialFactory:
             _partials[cls] = {}
             _forwardrefs[cls] = {}
 
-        if partial := _partials[cls].get(mcls):
-            return partial  # already have a partial
+        if mcls in _partials[cls]:
+            # already have a partial (or None: it is just being created further up)
+            return _partials[cls][mcls]
         else:  # block the spot (to break recursion)
             _partials[cls][mcls] = None
 
@@ -507,7 +508,11 @@ class PartialFactory:
         localns: Dict[str, Any] = {}
         mcls.update_forward_refs(**localns)  # to be sure
 
-        partial, nested = cls._create_partial(mcls, typehints=typehints)
+        try:
+            partial, nested = cls._create_partial(mcls, typehints=typehints)
+        except Exception:
+            del _partials[cls][mcls]  # (the marker would be taken for a result)
+            raise
         partial_ref = cls._partial_forwardref_name(mcls)
         # store result
         _forwardrefs[cls][partial_ref] = partial
@@ -515,7 +520,12 @@ class PartialFactory:
         # create partials for nested models
         for model in nested:
             cls.get_partial(model)
-        # resolve possible circular references
-        partial.update_forward_refs(**_forwardrefs[cls])  # type: ignore
+        # resolve possible circular references (also in partials completed
+        # before that had to wait for this one)
+        for part in list(_forwardrefs[cls].values()):
+            try:
+                part.update_forward_refs(**_forwardrefs[cls])  # type: ignore
+            except NameError:
+                pass  # refers to a partial that is being created further up
         # ----
         return partial
